@@ -256,6 +256,14 @@ class Centroid(_Base):
         _emit(self.log, (self._token(), "predict", X[:, -1].astype(np.int64).copy(), out.copy()))
         return out
 
+    def predict(self, X):
+        # class prediction for scikit-learn scorers (hyper-parameter search); not logged
+        X = np.asarray(X, dtype=np.float64)
+        out = np.zeros(len(X))
+        for j in range(X.shape[1] - 1):
+            out = out + (X[:, j] - self.mid_[j]) * self.coef_[j]
+        return (out > 0).astype(float)
+
     def __getattr__(self, name):
         # expose exactly one scoring interface
         iface = self.__dict__.get("iface", "df")
